@@ -31,6 +31,8 @@ From V Require Import Calc.TaskDefs.
 From V Require Import Proto.UnsafeLoopDefs.
 From V Require Import Proto.BasicSenderDefs.
 From V Require Import Proto.ThreadPoolDefs.
+From V Require Import Proto.NewThreadDefs.
+From V Require Import Proto.SrThunkDefs.
 Extraction Blacklist List String Int.
 Cd "../ocaml".
 Extraction "model.ml"
@@ -195,5 +197,12 @@ Extraction "model.ml"
   ThreadPool.init
   ThreadPool.final
   ThreadPool.queued
+  NewThread.step
+  NewThread.init
+  NewThread.final
+  SrThunk.step
+  SrThunk.init
+  SrThunk.resumed
+  SrThunk.quiescent
   (*END*).
 Cd "../coq".
